@@ -222,3 +222,77 @@ Theorem assign_words v ws text :
   match assign_value v text with Some t => sh_words uw t | None => None end = Some ws.
 Proof. intros H. rewrite (assign_roundtrip v ws text H). apply join_words. Qed.
 End W.
+
+(* ---------- channel P: a path written as root variable + suffix, quoted as one unit ---------- *)
+Section PathUnit.
+Variable uw us : char -> bool.
+Notation lex := (Sh.lex uw).
+
+Definition no_sq (s : str) : bool := negb (mem_char c_sq s).
+
+(* characters inside single quotes are taken literally up to the next quote *)
+Lemma lex_inq_plain s : forall cur rest,
+  no_sq s = true -> lex true true cur (s ++ rest) = lex true true (cur ++ fl true s) rest.
+Proof.
+  induction s as [|c s IH]; intros cur rest H.
+  - cbn. now rewrite app_nil_r.
+  - unfold no_sq, mem_char in H. cbn [existsb] in H. apply negb_true_iff in H. apply orb_false_iff in H as [Hc Hs].
+    rewrite N.eqb_sym in Hc. cbn [app Sh.lex]. rewrite Hc. rewrite IH.
+    + cbn [fl map]. now rewrite <- app_assoc.
+    + unfold no_sq, mem_char. now rewrite Hs.
+Qed.
+
+(* the text Make hands to sh for  '<root value><esc suffix>'  with the quotes placed by wrap_quotes *)
+Definition path_text (rootval sfx : str) : str := wrap_quotes (rootval ++ esc sfx).
+
+Lemma ends_q_app_ne a b : b <> [] -> ends_q (a ++ b) = ends_q b.
+Proof.
+  intros Hb. unfold ends_q. rewrite rev_app_distr. destruct (rev b) as [|x r] eqn:E.
+  - exfalso. apply Hb. rewrite <- (rev_involutive b), E. reflexivity.
+  - reflexivity.
+Qed.
+
+Lemma starts_q_app a b : a <> [] -> starts_q (a ++ b) = starts_q a.
+Proof. destruct a; [congruence|reflexivity]. Qed.
+
+Lemma removelast_app_ne (a b : str) : b <> [] -> removelast (a ++ b) = a ++ removelast b.
+Proof. intros. now apply removelast_app. Qed.
+
+(* sh reads the quoted unit back as root value ++ suffix, provided the root value contains no single quote,
+   does not start with one, and is at least 3 characters long or the whole is (so wrap_quotes takes its
+   general branch or the short one - both are covered) *)
+Theorem path_unit_words rootval sfx :
+  no_sq rootval = true -> rootval <> [] ->
+  sh_words uw (path_text rootval sfx) = Some [rootval ++ sfx].
+Proof.
+  intros Hq Hne. unfold sh_words, sh_lex, path_text, wrap_quotes.
+  assert (Hst : starts_q (rootval ++ esc sfx) = false).
+  { rewrite starts_q_app by assumption. destruct rootval as [|c r]; [congruence|]. cbn.
+    unfold no_sq, mem_char in Hq. cbn [existsb] in Hq. apply negb_true_iff in Hq.
+    apply orb_false_iff in Hq as [Hc _]. now rewrite N.eqb_sym. }
+  assert (W : forall body, body = rootval ++ esc sfx ->
+              lex false false [] ((c_sq :: body ++ [c_sq])) = Some [TW (fl true (rootval ++ sfx))]).
+  { intros body ->. rewrite open_quote, <- app_assoc, lex_inq_plain by assumption.
+    rewrite esc_inq. cbn. now rewrite fl_app. }
+  destruct (Nat.ltb (length (rootval ++ esc sfx)) 3).
+  - rewrite (W _ eq_refl). cbn. now rewrite word_str_fl.
+  - rewrite Hst. destruct (ends_q (rootval ++ esc sfx)) eqn:E.
+    + (* the text ends with a quote: it comes from the suffix *)
+      destruct sfx as [|c0 s0] eqn:Es.
+      * cbn [esc] in E. rewrite app_nil_r in E. exfalso.
+        apply ends_q_inv in E as [r Hr]. unfold no_sq in Hq. rewrite Hr in Hq.
+        apply negb_true_iff in Hq. assert (mem_char c_sq (r ++ [c_sq]) = true).
+        { apply mem_char_In. apply in_or_app. right. now left. } congruence.
+      * rewrite <- Es in *. assert (Hs : esc sfx <> []).
+        { subst sfx. cbn [esc]. destruct (N.eqb c0 c_sq); discriminate. }
+        rewrite ends_q_app_ne in E by assumption. rewrite ends_esc in E.
+        apply ends_q_inv in E as [s2 ->].
+        rewrite esc_app. cbn [esc]. rewrite N.eqb_refl.
+        change [c_sq; c_bs; c_sq; c_sq] with ([c_sq; c_bs; c_sq] ++ [c_sq]).
+        rewrite !app_assoc. rewrite removelast_last. cbn [app]. rewrite app_nil_r.
+        rewrite open_quote. rewrite <- !app_assoc. rewrite lex_inq_plain by assumption.
+        rewrite <- (app_nil_r (esc s2 ++ [c_sq; c_bs; c_sq])), esc_inq_trunc. cbn.
+        rewrite <- fl_app. fold (word_str (fl true (rootval ++ s2 ++ [c_sq]))). now rewrite word_str_fl.
+    + cbn [app]. rewrite (W _ eq_refl). cbn. now rewrite word_str_fl.
+Qed.
+End PathUnit.
